@@ -112,6 +112,18 @@ def ctext_of(e):
     return unparse(e).replace(' ', '')
 
 
+def cexpr(e):
+    """closed form of an expression that is linked into a function's tree, as a tree (locals replaced by the definition that reaches
+    the use); the expression itself when it has no closed form"""
+    f = _fn_of(e)
+    if f is not None:
+        try:
+            return f.canon.expr(e)
+        except Exception:       # noqa
+            pass
+    return e
+
+
 def same(e, text):
     """does expression e denote `text`?  Either literally, or in closed form (locals replaced by the definition that reaches the use):
     `size = query.size; f(size)` passes `query.size`.  Blanks are ignored."""
